@@ -30,7 +30,10 @@ META = dict(
                "(fixes/C37-prune-dead-man-switch-map.diff); on the unrepaired code the correspondence breaks and the "
                "oracle reports the failing history. Trusted: Lean kernel (+ propext/Classical.choice/Quot.sound), the "
                "harness, fastapi_websocket_pubsub's notifier delivering subscribe events with the subscriber id. The "
-               "set of units is fixed during a history; user names and publish notifications are not modelled.",
+               "set of units is fixed during a history; user names and publish notifications are not modelled. Results are "
+               "compared as ok / err / true / false (which exception a malformed event raises is not compared). The known "
+               "finding covers exactly: listed, not connected when registering and never connected since; a user who had a "
+               "live connection at or after the registration and is listed without one is a violation.",
     technique="Lean 4 proof (induction over histories from the right, step-effect lemmas, declarative Live/Registered "
               "predicates on the history) + differential correspondence (exhaustive small scope + sessions + malformed) "
               "+ independent history oracle",
